@@ -74,3 +74,63 @@ package types
 //@   ensures[* ok] err == nil ==> r != nil && ret != nil && ret1 != nil && ret == certOf(r.CertificateDer)
 //@   |   && keyOf(ret1) == unpkcs8(r.PrivateKeyPkcs8)
 //@   ensures[* failclosed] err != nil ==> ret == nil && ret1 == nil
+
+// ---------------------------------------------------------------- key agreement (C11)
+//
+// dh(priv, pub): X25519 shared secret; xpub(priv): public key of priv (trusted
+// axiom: dh(a, xpub(b)) == dh(b, xpub(a))).
+
+//@ func types.X25519EncryptionKey
+//@   nopanic[C11]
+//@   ensures[C11 failclosed] err != nil ==> ret == nil
+//@   ensures[C11 dh] err == nil ==> len(privKey) == 32 && privKeyType == KEYTYPE_X25519 && len(pubKey) == 32
+//@   |   && pubKeyType == KEYTYPE_X25519 && bytes(ret) == dh(privKey, pubKey)
+
+//@ func types.(*NodeCredentials).X25519EncryptionKey
+//@   nopanic[C11]
+//@   ensures[C11 key] err == nil ==> n != nil && ret == keyId(n.CertificatePublicKeyPkix)
+//@   |   && bytes(ret1) == dh(n.EncryptionPrivateKeyBytes, n.ServerEncryptionPublicKeyBytes)
+
+//@ func types.(*NodeInformation).X25519EncryptionKey
+//@   nopanic[C11]
+//@   ensures[C11 key] err == nil ==> n != nil && ret == keyId(n.CertificatePublicKeyPkix)
+//@   |   && bytes(ret1) == dh(n.ServerEncryptionPrivateKeyBytes, n.EncryptionPublicKeyBytes)
+
+//@ func types.(*NodeCredentials).PreviousX25519EncryptionKey
+//@   nopanic[C11]
+//@   ensures[C11 key] err == nil ==> n != nil && n.PreviousEncryptionKey != nil && ret == n.PreviousEncryptionKey.KeyId
+//@   |   && bytes(ret1) == dh(n.PreviousEncryptionKey.PrivateKeyPkcs8, n.PreviousEncryptionKey.PublicKeyPkix)
+
+//@ func types.(*NodeInformation).PreviousX25519EncryptionKey
+//@   nopanic[C11]
+//@   ensures[C11 key] err == nil ==> n != nil && n.PreviousEncryptionKey != nil && ret == n.PreviousEncryptionKey.KeyId
+//@   |   && bytes(ret1) == dh(n.PreviousEncryptionKey.PrivateKeyPkcs8, n.PreviousEncryptionKey.PublicKeyPkix)
+
+//@ func types.(*NodeCredentials).SetPreviousEncryptionKey
+//@   requires n != nil
+//@   nopanic[C11]
+//@   ensures[C11 prev] err == nil ==> oldNodeCredentials != nil && n.PreviousEncryptionKey != nil && fresh(n.PreviousEncryptionKey)
+//@   |   && n.PreviousEncryptionKey.KeyId == keyId(oldNodeCredentials.CertificatePublicKeyPkix)
+//@   |   && bytes(n.PreviousEncryptionKey.PrivateKeyPkcs8) == bytes(oldNodeCredentials.EncryptionPrivateKeyBytes)
+//@   |   && n.PreviousEncryptionKey.PrivateKeyType == oldNodeCredentials.EncryptionPrivateKeyType
+//@   |   && bytes(n.PreviousEncryptionKey.PublicKeyPkix) == bytes(oldNodeCredentials.ServerEncryptionPublicKeyBytes)
+//@   |   && n.PreviousEncryptionKey.PublicKeyType == oldNodeCredentials.ServerEncryptionPublicKeyType
+//@   modifies n.PreviousEncryptionKey
+
+//@ func types.(*NodeInformation).SetPreviousEncryptionKey
+//@   requires n != nil
+//@   nopanic[C11]
+//@   ensures[C11 prev] err == nil ==> oldNodeInformation != nil && n.PreviousEncryptionKey != nil && fresh(n.PreviousEncryptionKey)
+//@   |   && n.PreviousEncryptionKey.KeyId == keyId(oldNodeInformation.CertificatePublicKeyPkix)
+//@   |   && bytes(n.PreviousEncryptionKey.PrivateKeyPkcs8) == bytes(oldNodeInformation.ServerEncryptionPrivateKeyBytes)
+//@   |   && n.PreviousEncryptionKey.PrivateKeyType == oldNodeInformation.ServerEncryptionPrivateKeyType
+//@   |   && bytes(n.PreviousEncryptionKey.PublicKeyPkix) == bytes(oldNodeInformation.EncryptionPublicKeyBytes)
+//@   |   && n.PreviousEncryptionKey.PublicKeyType == oldNodeInformation.EncryptionPublicKeyType
+//@   modifies n.PreviousEncryptionKey
+
+//@ func types.lemmaKeyAgreement
+//@   requires node != nil && server != nil
+//@   requires bytes(server.EncryptionPublicKeyBytes) == xpub(node.EncryptionPrivateKeyBytes)
+//@   requires bytes(node.ServerEncryptionPublicKeyBytes) == xpub(server.ServerEncryptionPrivateKeyBytes)
+//@   requires bytes(node.CertificatePublicKeyPkix) == bytes(server.CertificatePublicKeyPkix)
+//@   ensures[C11 agree] nerr == nil && serr == nil ==> nid == sid && bytes(nkey) == bytes(skey)
